@@ -126,8 +126,8 @@ def crop_center(img, out_shape):
     if isinstance(out_shape, int):
         out_shape = (out_shape, out_shape)
 
-    padding = [i-o for i, o in zip(img.shape, out_shape)]
-    left = [math.ceil(p/2) for p in padding]
+    # index n//2 of the input must be index o//2 of the output, for all parities
+    left = [i//2 - o//2 for i, o in zip(img.shape, out_shape)]
     slcs = tuple((slice(l, l+o) for l, o in zip(left, out_shape)))  # NOQA -- l ambiguous
     return img[slcs]
 
